@@ -45,6 +45,10 @@ class PathTimeout(BaseException):
     pass
 
 
+class _SkipTimeoutReport(Exception):
+    pass
+
+
 class OutsideClaim(BaseException):
     """The path entered code that the harness declares outside its claim (e.g. an RNG trial loop).  Counted and
     reported in the evidence as `outside_claim_paths`; neither success nor failure."""
@@ -434,11 +438,21 @@ class Session:
             res.status, res.reason = "outside", str(e)
         except PathTimeout as e:
             # a python-level loop of the code under test did not finish: report it as a violation candidate
-            # (the concrete replay decides whether the real code really does not terminate on the model's input)
+            # (the concrete replay decides whether the real code really does not terminate on the model's input);
+            # if the time went into the SOLVER instead, the path is simply undecided
+            where = _where()
+            if "z3" in where:
+                signal.setitimer(signal.ITIMER_REAL, 0)
+                res.status, res.reason = "inconclusive", f"solver did not answer within the path time limit ({limit}s)"
+                raise_again = False
             try:
+                if "z3" in where:
+                    raise _SkipTimeoutReport()
                 signal.setitimer(signal.ITIMER_REAL, 0)
                 m = self._ensure_model()
                 self.obligations.append(Obl("terminates", "violated", self.model_values(m), f"{e} @ {_where()}"))
+            except _SkipTimeoutReport:
+                pass
             except BaseException as e2:  # noqa
                 res.status, res.reason = "inconclusive", f"path time limit ({e2})"
         except Unsupported as e:
